@@ -291,7 +291,10 @@ def rebuild(t, f: Callable[[tuple], Optional[Term]]):
     if tag in ('n', 'k'):
         new = t
     elif tag == 'sub':
-        new = ('sub', rebuild(t[1], f), rebuild(t[2], f))
+        b_ = rebuild(t[1], f)
+        if is_poly(b_) and single_atom(b_) is not None:
+            b_ = single_atom(b_)          # the base of a subscript is an atom, also after a substitution
+        new = ('sub', b_, rebuild(t[2], f))
     elif tag == 'call':
         new = mk_call(t[1], tuple(rebuild(a, f) for a in t[2]), t[3] if len(t) > 3 else ())
         if is_poly(new):
@@ -315,7 +318,10 @@ def rebuild(t, f: Callable[[tuple], Optional[Term]]):
             return r
         new = sa
     elif tag == 'attr':
-        new = ('attr', rebuild(t[1], f), t[2])
+        b_ = rebuild(t[1], f)
+        if is_poly(b_) and single_atom(b_) is not None:
+            b_ = single_atom(b_)
+        new = ('attr', b_, t[2])
     elif tag == 'slice':
         new = ('slice',) + tuple(rebuild(x, f) if x is not None else None for x in t[1:])
     elif tag in ('tuple', 'list'):
@@ -331,6 +337,11 @@ def rebuild(t, f: Callable[[tuple], Optional[Term]]):
         new = ('ifexp', rebuild(t[1], f), rebuild(t[2], f), rebuild(t[3], f))
     elif tag == 'alloc':
         new = ('alloc', t[1], rebuild(t[2], f)) + tuple(t[3:])
+    elif tag == 'listcomp' and len(t) == 3:
+        new = ('listcomp', rebuild(t[1], f),
+               tuple((rebuild(it, f), names, tuple(rebuild(c, f) for c in conds)) for it, names, conds in t[2]))
+    elif tag == 'bound':
+        new = t
     else:
         new = tuple(rebuild(x, f) if isinstance(x, tuple) else x for x in t)
     r = f(new)
@@ -633,7 +644,28 @@ def canon_expr(node: ast.AST, env: Env) -> Term:
         tag = 'tuple' if isinstance(node, ast.Tuple) else 'list'
         return atom((tag, tuple(canon_expr(e, env) for e in node.elts)))
     if isinstance(node, ast.ListComp):
-        return atom(('listcomp', ast.dump(node)))
+        # symbolic form: bound variables become positional placeholders, the iterables and the element are
+        # canonicalised in the current state (so locals used inside are replaced by their values)
+        try:
+            e2 = env.copy()
+            gens = []
+            k = 0
+            for g in node.generators:
+                it = canon_expr(g.iter, e2)
+                tgs = [g.target] if isinstance(g.target, ast.Name) else list(getattr(g.target, 'elts', []))
+                if not tgs or not all(isinstance(t_, ast.Name) for t_ in tgs):
+                    raise CanonError('comprehension target')
+                names = []
+                for t_ in tgs:
+                    e2.vals[t_.id] = atom(('bound', k))
+                    names.append(k)
+                    k += 1
+                conds = tuple(canon_cond(c_, e2) for c_ in g.ifs)
+                gens.append((it, tuple(names), conds))
+            elt = canon_expr(node.elt, e2)
+            return atom(('listcomp', elt, tuple(gens)))
+        except CanonError:
+            return atom(('listcomp', ast.dump(node)))
     if isinstance(node, ast.Starred):
         return atom(('star', canon_expr(node.value, env)))
     raise CanonError(f"expression kind {type(node).__name__}")
@@ -747,6 +779,12 @@ def show(t) -> str:
         return '(' + f" {tag} ".join(show(x) for x in t[1]) + ')'
     if tag == 'not':
         return f"not {show(t[1])}"
+    if tag == 'listcomp' and len(t) == 3:
+        gens = ' '.join(f"for {','.join('_' + str(n) for n in names)} in {show(it)}" +
+                        ''.join(f" if {show(c)}" for c in conds) for it, names, conds in t[2])
+        return f"[{show(t[1])} {gens}]"
+    if tag == 'bound':
+        return f"_{t[1]}"
     if tag == 'ifexp':
         return f"({show(t[2])} if {show(t[1])} else {show(t[3])})"
     if tag in ('tuple', 'list'):
